@@ -43,12 +43,16 @@ def mk(cols, tuples, carrier, n, fnkey, rng):
         rows.append(flush)
         win = "TumblingWindow('10s') WITH (TIMESTAMP='ts', TIMEUNIT='ms')"
         meta["n"] = len(tuples)
+    elif carrier == "global":     # the global window partitions by its own key tuple: a group fires at every second row of its tuple
+        win = "GLOBAL WINDOW TRIGGER WHEN COUNT(*) >= 2"
+        meta["n"] = 0
+        meta["pred"] = {"o": "cmp", "fn": "count_star", "arg": {"k": "star"}, "op": ">=", "lit": 20000}
     else:
         win = "CountingWindow(%d)" % n
     # clause layout: keys before or after the window function, optionally followed directly by a (non-binding) LIMIT
     lay = rng.choice(["keys_first", "keys_first", "win_first"])
-    gb = (", ".join(order + [win]) if lay == "keys_first" or carrier == "tumbling" else ", ".join([win] + order)) if cols else win
-    if carrier != "tumbling" and rng.random() < 0.4:
+    gb = (", ".join(order + [win]) if lay == "keys_first" or carrier in ("tumbling", "global") else ", ".join([win] + order)) if cols else win
+    if carrier == "counting" and rng.random() < 0.4:
         gb += " LIMIT 100"
     sql = "SELECT %s%s FROM stream GROUP BY %s" % (sel_keys + ", " if cols else "", SEL, gb)
     return {"meta": meta, "sql": sql, "rows": rows}
@@ -77,7 +81,9 @@ def run(tier):
                 alphas.append(rng.sample(STRS, 3) + [None, MISSING])
         L = rng.choice([2, 3, 4, 4, 5])
         tuples = [tuple(rng.choice(a) for a in alphas) for _ in range(L)]
-        carrier = rng.choice(["tumbling", "tumbling", "counting"])
+        carrier = rng.choice(["tumbling", "tumbling", "counting", "global"] if ncol > 0 else ["tumbling", "counting"])
+        if carrier == "global":       # more repeats of the same tuples, so that groups fire
+            tuples = tuples + [rng.choice(tuples) for _ in range(rng.choice([3, 5]))]
         scen.append(mk(cols, tuples, carrier, 2, None, rng))
     # scalar-function keys
     for _ in range(120 if quick else 800):
